@@ -434,7 +434,7 @@ func (w *world) verdict(l *lastRec) string {
 		switch l.res {
 		case "merged":
 			if b2.total == fb.total && b2.excl == fb.excl && b2.errs == fb.errs && showMap(b2.ms) == showMap(fb.ms) &&
-				showMap(b2.times) == showMap(fb.times) && b2.max == b.max {
+				showMap(b2.times) == showMap(fb.times) && b2.max == b.max && showList(b2.cfgs) == showList(fb.cfgs) {
 				return "ok"
 			}
 			return "FAIL merge-not-exact"
